@@ -48,6 +48,10 @@ CHECKS = {
    technique="deterministic simulation: seeded reconfiguration histories (endianness switches at arbitrary points between parses/dumps of scalars, arrays and pre-loaded compiled/interpreted structures) judged by reference codecs under the model's current endianness; truncated inputs as faults",
    text="Seeded search over (1-2 cstruct objects, flat packed structures loaded before the history as compiled and interpreted twins, histories of 10-40 ops with endianness switches). The model holds only the current endianness per object; every parse must give the reference value and every dump the reference bytes (two's complement / IEEE-754 / raw / UTF-16 / minimal LEB128 / bit-field unit packing), for all 14 integer types, their aliases, floats, char, wchar, LEB128, arrays created before and after switches, and both structure readers. The reconfiguration clause is decided by the search; the codec clause rides on the per-step oracle.",
    note="Trusts: reference codecs (int.from_bytes/to_bytes, struct, hand-written LEB128); alias meanings written down in the harness; @ and = excluded; no NaN payloads; packed layout only."),
+ "C11": dict(engine="E-UNION", cat="exploration", ref="4.5",
+   technique="deterministic simulation: seeded assignment histories over the several views of one union buffer (members, nested structures through proxies, folded anonymous fields, nested unions) checked after every step against a byte-array reference model",
+   text="Seeded search over (fixed-size union definitions with scalar/array/enum/pointer members, nested and anonymous structs to depth 3, nested unions, packed or aligned, optionally inside a holder struct; initial content by parse/default/keyword construction; histories of 1-12 assignments, dumps and re-parses). Model = one bytearray. After every op each member must observe what a stand-alone parse of its type from the model bytes observes, dumps() must equal the model on every byte that carries data in some member, size and consumed length must match the largest member rounded to alignment. One recorded known finding (union dumped from its largest member only) is recognised structurally and reported as KNOWN-FINDING.",
+   note="Trusts: field offsets/alignment from the library's field table (C04), MemberType.dumps for the encoding of an assigned value (C05); interpreted readers only; no floats/wchar/flags/bit-field assignments (NaN payloads, invalid UTF-16, C12, C06); padding of the rewritten member may become zero."),
 }
 PENDING = {'C05': 'check not built yet in this revision (planned engine, DESIGN 4); not claimed until its check exists', 'C09': 'check not built yet in this revision (planned engine, DESIGN 4); not claimed until its check exists', 'C10': 'check not built yet in this revision (planned engine, DESIGN 4); not claimed until its check exists', 'C11': 'check not built yet in this revision (planned engine, DESIGN 4); not claimed until its check exists', 'C13': 'check not built yet in this revision (planned engine, DESIGN 4); not claimed until its check exists', 'C14': 'check not built yet in this revision (planned engine, DESIGN 4); not claimed until its check exists', 'C15': 'check not built yet in this revision (planned engine, DESIGN 4); not claimed until its check exists', 'C16': 'check not built yet in this revision (planned engine, DESIGN 4); not claimed until its check exists', 'C17': 'check not built yet in this revision (planned engine, DESIGN 4); not claimed until its check exists', 'C18': 'check not built yet in this revision (planned engine, DESIGN 4); not claimed until its check exists'}
 
